@@ -58,4 +58,91 @@ theorem mon_status_progress (w : Nat) (xs : List MonIn) : ∀ s, LatchedStable w
       · left; exact ⟨rfl, h.1⟩
       · right; left; refine ⟨rfl, ?_⟩; simp [monSysTicks, hts] at h; omega
 
+/-! ### What the software can read: exactly which observations can be torn -/
+
+/-- `v` is a per-bit mixture of two values of `L`. -/
+def IsMix (L : List Nat) (v : Nat) : Prop := ∃ a b m, a ∈ L ∧ b ∈ L ∧ v = mix m a b
+
+theorem isMix_mono {L L' : List Nat} {v : Nat} (h : IsMix L v) : IsMix (L ++ L') v := by
+  obtain ⟨a, b, m, ha, hb, e⟩ := h
+  exact ⟨a, b, m, List.mem_append_left _ ha, List.mem_append_left _ hb, e⟩
+
+theorem isMix_mem {L : List Nat} {v : Nat} (h : v ∈ L) : IsMix L v := ⟨v, v, 0, h, h, (mix_same 0 v).symm⟩
+
+theorem monLatdHist_head (w : Nat) (s : MonState) (xs : List MonIn) :
+    ∃ t, monLatdHist w s xs = s.latd :: t := by
+  cases xs <;> simp [monLatdHist]
+
+/-- Full statement (no hypothesis): the status and the flop before it always hold a per-bit mixture of two values
+    the latched count has really held. -/
+theorem mon_status_mix (w : Nat) (xs : List MonIn) : ∀ (s : MonState) (L : List Nat),
+    IsMix (L ++ [s.latd]) s.s1 → IsMix (L ++ [s.latd]) s.s2 →
+    IsMix (L ++ monLatdHist w s xs) (monRun w s xs).s2 := by
+  induction xs with
+  | nil => intro s L _ h2; simpa [monLatdHist, monRun] using h2
+  | cons x xs ih =>
+    intro s L h1 h2
+    simp only [monLatdHist, monRun]
+    have key := ih (monStep w s x) (L ++ [s.latd])
+    obtain ⟨t, ht⟩ := monLatdHist_head w (monStep w s x) xs
+    have e : L ++ s.latd :: monLatdHist w (monStep w s x) xs =
+        (L ++ [s.latd]) ++ monLatdHist w (monStep w s x) xs := by simp
+    rw [e]
+    apply key
+    · -- first flop
+      simp only [monStep]
+      cases hts : x.ts
+      · simpa [hts] using isMix_mono h1
+      · cases htc : x.tc
+        · simp only [if_true, Bool.false_eq_true, if_false]
+          exact isMix_mem (by simp)
+        · simp only [if_true]
+          exact ⟨s.latd, latdN s, x.mCnt, by simp, by simp, rfl⟩
+    · simp only [monStep]
+      cases hts : x.ts
+      · simpa [hts] using isMix_mono h2
+      · simpa [hts] using isMix_mono h1
+
+/-- Under `NoCoincidentChange` the status is never torn: it is a value the latched count really held. -/
+theorem mon_status_coherent (w : Nat) (xs : List MonIn) : ∀ (s : MonState) (L : List Nat),
+    NoCoincidentChange w s xs → s.s1 ∈ L ++ [s.latd] → s.s2 ∈ L ++ [s.latd] →
+    (monRun w s xs).s2 ∈ L ++ monLatdHist w s xs := by
+  induction xs with
+  | nil => intro s L _ _ h2; simpa [monLatdHist, monRun] using h2
+  | cons x xs ih =>
+    intro s L hn h1 h2
+    obtain ⟨h0, hn'⟩ := hn
+    simp only [monLatdHist, monRun]
+    have e : L ++ s.latd :: monLatdHist w (monStep w s x) xs =
+        (L ++ [s.latd]) ++ monLatdHist w (monStep w s x) xs := by simp
+    rw [e]
+    apply ih (monStep w s x) (L ++ [s.latd]) hn'
+    · simp only [monStep]
+      cases hts : x.ts
+      · simp only [Bool.false_eq_true, if_false]; exact List.mem_append_left _ h1
+      · cases htc : x.tc
+        · simp
+        · simp [h0 hts htc, mix_same]
+    · simp only [monStep]
+      cases hts : x.ts
+      · simp only [Bool.false_eq_true, if_false]; exact List.mem_append_left _ h2
+      · simp only [if_true]; exact List.mem_append_left _ h1
+
+/-- Bounded error of a torn read: bit by bit between the AND and the OR of the two values. -/
+theorem mix_hull (m a b i : Nat) :
+    ((a &&& b).testBit i = true → (mix m a b).testBit i = true) ∧
+    ((mix m a b).testBit i = true → (a ||| b).testBit i = true) := by
+  rw [mix_testBit, Nat.testBit_and, Nat.testBit_or]
+  cases m.testBit i <;> cases a.testBit i <;> cases b.testBit i <;> simp
+
+def decNoCoincidentChange (w : Nat) : (s : MonState) → (xs : List MonIn) → Decidable (NoCoincidentChange w s xs)
+  | _, [] => isTrue trivial
+  | s, x :: xs =>
+    have := decNoCoincidentChange w (monStep w s x) xs
+    show Decidable ((x.ts = true → x.tc = true → latdN s = s.latd) ∧ NoCoincidentChange w (monStep w s x) xs)
+      from inferInstance
+
+instance (w : Nat) (s : MonState) (xs : List MonIn) : Decidable (NoCoincidentChange w s xs) :=
+  decNoCoincidentChange w s xs
+
 end Litex.Cdc
